@@ -7,8 +7,16 @@
 (* the failure marked as seen, scenario setup / step / teardown, stop      *)
 (* checks, failure counting from the thread).  Hypothesis is a             *)
 (* nondeterministic source of scenarios: a scenario has between 0 and      *)
-(* StepCount steps, a run has up to MaxScen scenarios, an errored step is  *)
-(* either re-raised or reported as flaky.                                  *)
+(* StepCount steps, a run has between 1 and MaxScen scenarios; after a     *)
+(* failed or errored step Hypothesis goes on within the same run (more     *)
+(* examples, then the final replay of the failing one - schemathesis runs  *)
+(* the generate phase only, there is no shrinking); the API can produce    *)
+(* NKinds distinct failures, each recorded / counted / raised only the     *)
+(* first time it is seen (in the suite, or in an earlier suite of the      *)
+(* run); an errored step is either re-raised or reported as flaky.         *)
+(* Not modelled (named deviations): the Unsatisfiable retry and the        *)
+(* SkipTest exit of the suite loop; MaxSuites bounds an API that keeps     *)
+(* producing flaky errors.                                                 *)
 (*                                                                         *)
 (* Flags name the defects the checks found in the code, so TLC can refute  *)
 (* the old designs (vacuity guard) and confirm the repaired one:           *)
@@ -25,23 +33,23 @@
 (*                when FALSE)                                              *)
 (***************************************************************************)
 EXTENDS EventProtocol, Sequences, TLC
-CONSTANTS StepCount, MaxScen, MaxSuites, MaxFail, FixDrain, FixCtrlC, FixDrainExec, FixSetup, FixWorst, AllowStop, AllowCtrlC, AllowError, AliveCheck
+CONSTANTS StepCount, MaxScen, MaxSuites, MaxFail, FixDrain, FixCtrlC, FixDrainExec, FixSetup, FixWorst, AllowStop, AllowCtrlC, AllowError, AliveCheck, NKinds
 PH == 5
 Ev(k, su, sc, st) == [k |-> k, ph |-> PH, su |-> su, sc |-> sc, st |-> st]
 NoEv == Ev("", 0, 0, "")
 CRank(s) == CASE s = "none" -> 0 [] s = "success" -> 1 [] s = "failure" -> 2 [] s = "error" -> 3 [] s = "interrupted" -> 4 [] s = "skip" -> 5
 
-VARIABLES tpc, suite, scen, nscen, stepn, scst, sst, pend, seen,      \* state-machine thread
+VARIABLES tpc, suite, scen, nscen, stepn, scst, sst, pend, nSeenRun, nSeenSuite,      \* state-machine thread
           q, cpc, cur, status, executed,                              \* queue and consumer
           stop, fails, limit,                                         \* ExecutionControl
           mon, exit,                                                  \* what the stream consumer sees
           problem, reqAfterStop, scsAfterStop, stopped                \* ghosts
-vars == <<tpc, suite, scen, nscen, stepn, scst, sst, pend, seen, q, cpc, cur, status, executed, stop, fails, limit, mon, exit,
+vars == <<tpc, suite, scen, nscen, stepn, scst, sst, pend, nSeenRun, nSeenSuite, q, cpc, cur, status, executed, stop, fails, limit, mon, exit,
           problem, reqAfterStop, scsAfterStop, stopped>>
 HasToStop == stop \/ limit
 
 Init == /\ tpc = "suite_start" /\ suite = 1 /\ scen = 0 /\ nscen = 0 /\ stepn = 0 /\ scst = "none" /\ sst = "success" /\ pend = "none"
-        /\ seen = FALSE /\ q = <<>> /\ cpc = "start" /\ cur = NoEv /\ status = "none" /\ executed = FALSE
+        /\ nSeenRun = 0 /\ nSeenSuite = 0 /\ q = <<>> /\ cpc = "start" /\ cur = NoEv /\ status = "none" /\ executed = FALSE
         /\ stop = FALSE /\ fails = 0 /\ limit = FALSE /\ mon = MonInit /\ exit = 0
         /\ problem = FALSE /\ reqAfterStop = 0 /\ scsAfterStop = 0 /\ stopped = FALSE
 
@@ -49,7 +57,7 @@ Emit(e) == /\ mon' = Observe(mon, e, MaxFail, stop)
            /\ exit' = IF e.k = "NFE" \/ (e.k = "PF" /\ e.st \in {"failure", "error"}) THEN 1 ELSE exit
 NoEmit == UNCHANGED <<mon, exit>>
 Put(es) == q' = q \o es
-TUnch == UNCHANGED <<tpc, suite, scen, nscen, stepn, scst, sst, pend, seen>>
+TUnch == UNCHANGED <<tpc, suite, scen, nscen, stepn, scst, sst, pend, nSeenRun, nSeenSuite>>
 CUnch == UNCHANGED <<cpc, cur, status, executed>>
 GUnch == UNCHANGED <<problem, reqAfterStop, scsAfterStop, stopped>>
 
@@ -69,12 +77,23 @@ P_Start == /\ cpc = "start"
            /\ cpc' = "get" /\ UNCHANGED <<exit, cur, status, executed, q, stop, fails, limit>> /\ TUnch /\ GUnch
 
 (* ---------------- state-machine thread (_executor.py) ---------------- *)
+(* `while True:` put(SuiteStarted); the stop flag is read AFTER the put (two separate steps of the thread) *)
 T_SuiteStart ==
   /\ tpc = "suite_start"
-  /\ IF stop THEN /\ Put(<<Ev("SS", suite, 0, ""), Ev("INT", 0, 0, ""), Ev("SF", suite, 0, "interrupted")>>) /\ tpc' = "exit"
-                  /\ UNCHANGED <<sst, nscen>>
-     ELSE /\ Put(<<Ev("SS", suite, 0, "")>>) /\ tpc' = "setup" /\ sst' = "success" /\ nscen' = 0
-  /\ UNCHANGED <<suite, scen, stepn, scst, pend, seen, stop, fails, limit>> /\ CUnch /\ NoEmit /\ GUnch
+  /\ Put(<<Ev("SS", suite, 0, "")>>) /\ tpc' = "suite_check"
+  /\ UNCHANGED <<suite, scen, nscen, stepn, scst, sst, pend, nSeenRun, nSeenSuite, stop, fails, limit>> /\ CUnch /\ NoEmit /\ GUnch
+T_SuiteCheck ==                       \* `if engine.is_interrupted` (the stop event only, not the failure limit)
+  /\ tpc = "suite_check"
+  /\ IF stop THEN tpc' = "suite_intr1" /\ UNCHANGED <<sst, nscen, pend>>
+             ELSE tpc' = "setup" /\ sst' = "success" /\ nscen' = 0 /\ pend' = "none"
+  /\ UNCHANGED <<suite, scen, stepn, scst, nSeenRun, nSeenSuite, q, stop, fails, limit>> /\ CUnch /\ NoEmit /\ GUnch
+T_SuiteIntr1 == /\ tpc = "suite_intr1" /\ Put(<<Ev("INT", 0, 0, "")>>) /\ tpc' = "suite_intr2"
+                /\ UNCHANGED <<suite, scen, nscen, stepn, scst, sst, pend, nSeenRun, nSeenSuite, stop, fails, limit>> /\ CUnch /\ NoEmit /\ GUnch
+T_SuiteIntr2 == /\ tpc = "suite_intr2" /\ Put(<<Ev("SF", suite, 0, "interrupted")>>) /\ tpc' = "exit"
+                /\ UNCHANGED <<suite, scen, nscen, stepn, scst, sst, pend, nSeenRun, nSeenSuite, stop, fails, limit>> /\ CUnch /\ NoEmit /\ GUnch
+(* Hypothesis starts the next scenario of this run: a generated one, or (after a failure / error) more generated ones and the
+   final replay of the failing one.  setup() raises KeyboardInterrupt when the run has to stop: that ends the whole Hypothesis
+   run, whatever was pending. *)
 T_Setup ==
   /\ tpc = "setup"
   /\ IF FixSetup /\ HasToStop
@@ -82,55 +101,63 @@ T_Setup ==
      ELSE /\ scen' = scen + 1 /\ Put(<<Ev("ScS", suite, suite * 100 + scen + 1, "")>>) /\ stepn' = 0 /\ scst' = "none"
           /\ tpc' = "step_check" /\ UNCHANGED pend
           /\ scsAfterStop' = IF stop THEN scsAfterStop + 1 ELSE scsAfterStop
-  /\ UNCHANGED <<suite, nscen, sst, seen, stop, fails, limit, problem, reqAfterStop, stopped>> /\ CUnch /\ NoEmit
+  /\ UNCHANGED <<suite, nscen, sst, nSeenRun, nSeenSuite, stop, fails, limit, problem, reqAfterStop, stopped>> /\ CUnch /\ NoEmit
 (* Hypothesis abandons / ends the scenario: before its first step, or after any successful step *)
 T_EndScenario ==
   /\ tpc = "step_check" /\ tpc' = "teardown"
-  /\ UNCHANGED <<suite, scen, nscen, stepn, scst, sst, pend, seen, q, stop, fails, limit>> /\ CUnch /\ NoEmit /\ GUnch
+  /\ UNCHANGED <<suite, scen, nscen, stepn, scst, sst, pend, nSeenRun, nSeenSuite, q, stop, fails, limit>> /\ CUnch /\ NoEmit /\ GUnch
 T_StepCheck ==
   /\ tpc = "step_check" /\ stepn < StepCount
   /\ IF HasToStop THEN scst' = "interrupted" /\ pend' = "ctrlc" /\ tpc' = "teardown"
      ELSE tpc' = "step" /\ UNCHANGED <<scst, pend>>
-  /\ UNCHANGED <<suite, scen, nscen, stepn, sst, seen, q, stop, fails, limit>> /\ CUnch /\ NoEmit /\ GUnch
+  /\ UNCHANGED <<suite, scen, nscen, stepn, sst, nSeenRun, nSeenSuite, q, stop, fails, limit>> /\ CUnch /\ NoEmit /\ GUnch
+(* one request + its checks.  A failed check is NEW when it was seen neither in this suite nor in an earlier one (only new
+   ones are recorded, counted and raised); NKinds bounds the distinct failures the API can produce. *)
+Fresh == NKinds - nSeenRun - nSeenSuite
 T_Step ==
   /\ tpc = "step"
   /\ reqAfterStop' = IF stop THEN reqAfterStop + 1 ELSE reqAfterStop
-  /\ \/ /\ scst' = "success" /\ stepn' = stepn + 1 /\ tpc' = "step_check"        \* all checks pass (or the failure is already known)
-        /\ UNCHANGED <<pend, fails, limit, problem>>
-     \/ /\ ~seen /\ scst' = "failure" /\ pend' = "failure" /\ tpc' = "teardown" /\ stepn' = stepn + 1
-        /\ fails' = IF MaxFail # 0 THEN fails + 1 ELSE fails
-        /\ limit' = (limit \/ (MaxFail # 0 /\ fails + 1 >= MaxFail))
+  /\ \/ /\ scst' = "success" /\ stepn' = stepn + 1 /\ tpc' = "step_check"        \* all checks pass (or every failure is already known)
+        /\ UNCHANGED <<pend, fails, limit, problem, nSeenSuite>>
+     \/ \E n \in 1..Fresh :
+        /\ scst' = "failure" /\ tpc' = "teardown" /\ stepn' = stepn + 1
+        /\ pend' = IF pend \in {"error", "flaky"} THEN pend ELSE "failure"
+        /\ nSeenSuite' = nSeenSuite + n
+        /\ fails' = IF MaxFail # 0 THEN fails + n ELSE fails
+        /\ limit' = (limit \/ (MaxFail # 0 /\ fails + n >= MaxFail))
         /\ problem' = TRUE
      \/ /\ AllowError /\ scst' = "error" /\ pend' \in {"error", "flaky"} /\ tpc' = "teardown" /\ stepn' = stepn + 1
-        /\ problem' = TRUE /\ UNCHANGED <<fails, limit>>
-  /\ UNCHANGED <<suite, scen, nscen, sst, seen, q, stop, scsAfterStop, stopped>> /\ CUnch /\ NoEmit
+        /\ problem' = TRUE /\ UNCHANGED <<fails, limit, nSeenSuite>>
+  /\ UNCHANGED <<suite, scen, nscen, sst, nSeenRun, q, stop, scsAfterStop, stopped>> /\ CUnch /\ NoEmit
+(* teardown() always announces the end of the scenario; a KeyboardInterrupt then leaves the Hypothesis run at once, otherwise
+   Hypothesis goes on (more examples while its budget lasts, the final replay after a failure) or is done *)
 T_Teardown ==
   /\ tpc = "teardown"
   /\ Put(<<Ev("ScF", suite, suite * 100 + scen, IF scst = "none" THEN "skip" ELSE scst)>>)
-  /\ IF pend # "none" THEN tpc' = "run_end" /\ UNCHANGED nscen
-     ELSE IF nscen + 1 >= MaxScen THEN tpc' = "run_end" /\ nscen' = nscen + 1
-     ELSE tpc' = "setup" /\ nscen' = nscen + 1
-  /\ UNCHANGED <<suite, scen, stepn, scst, sst, pend, seen, stop, fails, limit>> /\ CUnch /\ NoEmit /\ GUnch
+  /\ IF pend = "ctrlc" THEN tpc' = "run_end" /\ UNCHANGED nscen
+     ELSE /\ nscen' = nscen + 1
+          /\ \/ nscen + 1 < MaxScen /\ tpc' = "setup"
+             \/ tpc' = "run_end"
+  /\ UNCHANGED <<suite, scen, stepn, scst, sst, pend, nSeenRun, nSeenSuite, stop, fails, limit>> /\ CUnch /\ NoEmit /\ GUnch
+(* how `InstrumentedStateMachine.run()` returns: normally, KeyboardInterrupt, FailureGroup, Flaky, any other exception *)
 T_RunEnd ==
   /\ tpc = "run_end"
-  /\ CASE pend = "none"    -> /\ tpc' = "suite_finish_exit" /\ UNCHANGED <<sst, seen, stop, q>>
-       [] pend = "ctrlc"   -> /\ stop' = TRUE /\ sst' = "interrupted" /\ Put(<<Ev("INT", 0, 0, "")>>) /\ tpc' = "suite_finish_exit" /\ UNCHANGED seen
-       [] pend = "failure" -> /\ sst' = "failure" /\ UNCHANGED <<stop, q>>
-                              /\ IF limit \/ suite >= MaxSuites THEN tpc' = "suite_finish_exit" /\ UNCHANGED seen
-                                 ELSE tpc' = "suite_finish_loop" /\ seen' = TRUE
-       [] pend = "flaky"   -> /\ sst' = "failure" /\ UNCHANGED <<stop, q>>
-                              /\ IF limit \/ suite >= MaxSuites THEN tpc' = "suite_finish_exit" /\ UNCHANGED seen
-                                 ELSE tpc' = "suite_finish_loop" /\ seen' = TRUE
-       [] pend = "error"   -> /\ sst' = "error" /\ Put(<<Ev("NFE", 0, 0, "")>>) /\ tpc' = "suite_finish_exit" /\ UNCHANGED <<seen, stop>>
-  /\ UNCHANGED <<suite, scen, nscen, stepn, scst, pend, fails, limit>> /\ CUnch /\ NoEmit /\ GUnch
-T_SuiteFinish ==
+  /\ CASE pend = "none"    -> /\ tpc' = "suite_finish_exit" /\ UNCHANGED <<sst, nSeenRun, stop, q>>
+       [] pend = "ctrlc"   -> /\ stop' = TRUE /\ sst' = "interrupted" /\ Put(<<Ev("INT", 0, 0, "")>>) /\ tpc' = "suite_finish_exit" /\ UNCHANGED nSeenRun
+       [] pend \in {"failure", "flaky"} ->
+                              /\ sst' = "failure" /\ UNCHANGED <<stop, q>>
+                              /\ IF limit \/ suite >= MaxSuites THEN tpc' = "suite_finish_exit" /\ UNCHANGED nSeenRun
+                                 ELSE tpc' = "suite_finish_loop" /\ nSeenRun' = nSeenRun + nSeenSuite     \* marked as seen in the run
+       [] pend = "error"   -> /\ sst' = "error" /\ Put(<<Ev("NFE", 0, 0, "")>>) /\ tpc' = "suite_finish_exit" /\ UNCHANGED <<nSeenRun, stop>>
+  /\ UNCHANGED <<suite, scen, nscen, stepn, scst, pend, nSeenSuite, fails, limit>> /\ CUnch /\ NoEmit /\ GUnch
+T_SuiteFinish ==                      \* `finally:` put(SuiteFinished); ctx.reset()
   /\ tpc \in {"suite_finish_exit", "suite_finish_loop"}
-  /\ Put(<<Ev("SF", suite, 0, sst)>>)
+  /\ Put(<<Ev("SF", suite, 0, sst)>>) /\ nSeenSuite' = 0
   /\ IF tpc = "suite_finish_loop" THEN tpc' = "suite_start" /\ suite' = suite + 1 /\ pend' = "none"
      ELSE tpc' = "exit" /\ UNCHANGED <<suite, pend>>
-  /\ UNCHANGED <<scen, nscen, stepn, scst, sst, seen, stop, fails, limit>> /\ CUnch /\ NoEmit /\ GUnch
+  /\ UNCHANGED <<scen, nscen, stepn, scst, sst, nSeenRun, stop, fails, limit>> /\ CUnch /\ NoEmit /\ GUnch
 T_Exit == /\ tpc = "exit" /\ tpc' = "dead"
-          /\ UNCHANGED <<suite, scen, nscen, stepn, scst, sst, pend, seen, q, stop, fails, limit>> /\ CUnch /\ NoEmit /\ GUnch
+          /\ UNCHANGED <<suite, scen, nscen, stepn, scst, sst, pend, nSeenRun, nSeenSuite, q, stop, fails, limit>> /\ CUnch /\ NoEmit /\ GUnch
 
 (* ---------------- consumer (stateful/__init__.py) ---------------- *)
 Fold(e) == IF (e.k = "SF" \/ (FixWorst /\ e.k = "ScF")) /\ e.st # "skip" /\ (status = "none" \/ CRank(status) < CRank(e.st))
@@ -165,11 +192,11 @@ C_EngineFinished ==
 Env_Stop == /\ AllowStop /\ ~stopped /\ cpc \notin {"start", "end"} /\ stop' = TRUE /\ stopped' = TRUE
             /\ NoEmit /\ TUnch /\ CUnch /\ UNCHANGED <<q, fails, limit, problem, reqAfterStop, scsAfterStop>>
 
-Next == \/ P_Start \/ T_SuiteStart \/ T_Setup \/ T_EndScenario \/ T_StepCheck \/ T_Step \/ T_Teardown \/ T_RunEnd \/ T_SuiteFinish \/ T_Exit
+Next == \/ P_Start \/ T_SuiteStart \/ T_SuiteCheck \/ T_SuiteIntr1 \/ T_SuiteIntr2 \/ T_Setup \/ T_EndScenario \/ T_StepCheck \/ T_Step \/ T_Teardown \/ T_RunEnd \/ T_SuiteFinish \/ T_Exit
         \/ C_Get \/ C_Yield \/ C_Timeout \/ C_Alive \/ C_CtrlC \/ C_Join \/ C_Drain \/ C_PhaseFinished \/ C_EngineFinished \/ Env_Stop
 Spec == Init /\ [][Next]_vars
 MainNext == P_Start \/ C_Get \/ C_Yield \/ C_Timeout \/ C_Alive \/ C_Join \/ C_Drain \/ C_PhaseFinished \/ C_EngineFinished
-ThreadNext == T_SuiteStart \/ T_Setup \/ T_EndScenario \/ T_StepCheck \/ T_Step \/ T_Teardown \/ T_RunEnd \/ T_SuiteFinish \/ T_Exit
+ThreadNext == T_SuiteStart \/ T_SuiteCheck \/ T_SuiteIntr1 \/ T_SuiteIntr2 \/ T_Setup \/ T_EndScenario \/ T_StepCheck \/ T_Step \/ T_Teardown \/ T_RunEnd \/ T_SuiteFinish \/ T_Exit
 FairSpec == Spec /\ WF_vars(MainNext) /\ WF_vars(ThreadNext)
 
 Done == cpc = "end"
